@@ -3,6 +3,8 @@ package main
 // C16: things read off sam/cigar.go and sam/record.go.
 //
 //   sam_consume         the `consume` table as list (Query, Reference)
+//   sam_CigarOpType_Consumes  func (ct CigarOpType) Consumes(): optional clamp `if ct > K { ct = K }`
+//                       followed by the bounds-checked index expression consume[ct]
 //   sam_CigarOp_Type    func (co CigarOp) Type()    (receiver becomes a parameter)
 //   sam_CigarOp_Len     func (co CigarOp) Len()
 //   sam_NewCigarOp      func NewCigarOp(t, n) with its panic guard
@@ -23,6 +25,7 @@ func init() {
 	emitters["25_c16_sam"] = func(w *bytes.Buffer) {
 		sm := load("sam")
 		c16Consume(w, sm)
+		c16Consumes(w, sm)
 		c16Method(w, sm, "CigarOp", "Type", "sam_CigarOp_Type")
 		c16Method(w, sm, "CigarOp", "Len", "sam_CigarOp_Len")
 		c16NewCigarOp(w, sm)
@@ -126,6 +129,57 @@ func c16Consume(w *bytes.Buffer, p *pkgInfo) {
 	}
 	fmt.Fprintf(w, "\n(* %s: var consume, as (Query, Reference) *)\n", p.fset.Position(lit.Pos()))
 	fmt.Fprintf(w, "Definition sam_consume : list (Z * Z) := [%s].\n", strings.Join(parts, "; "))
+}
+
+// c16Consumes: `[if <cond on ct> { ct = <expr> }] return consume[ct]`.
+func c16Consumes(w *bytes.Buffer, p *pkgInfo) {
+	fd := p.funcDecl("CigarOpType", "Consumes")
+	if fd.Recv == nil || len(fd.Recv.List) != 1 || len(fd.Recv.List[0].Names) != 1 {
+		fatalf("sam: CigarOpType.Consumes: unexpected receiver")
+	}
+	rn := fd.Recv.List[0].Names[0].Name
+	t := &tr{p: p, prefix: "sam", fn: fd}
+	b := fd.Body.List
+	isIndex := func(s ast.Stmt) bool {
+		rs, ok := s.(*ast.ReturnStmt)
+		if !ok || len(rs.Results) != 1 {
+			return false
+		}
+		ix, ok := rs.Results[0].(*ast.IndexExpr)
+		if !ok {
+			return false
+		}
+		x, ok1 := ix.X.(*ast.Ident)
+		i, ok2 := ix.Index.(*ast.Ident)
+		return ok1 && ok2 && x.Name == "consume" && i.Name == rn
+	}
+	clamp := ""
+	switch {
+	case len(b) == 1 && isIndex(b[0]):
+	case len(b) == 2 && isIndex(b[1]):
+		ifs, ok := b[0].(*ast.IfStmt)
+		if !ok || ifs.Init != nil || ifs.Else != nil || len(ifs.Body.List) != 1 {
+			fatalf("sam: CigarOpType.Consumes: guard shape changed")
+		}
+		as, ok := ifs.Body.List[0].(*ast.AssignStmt)
+		if !ok || as.Tok != token.ASSIGN || len(as.Lhs) != 1 || len(as.Rhs) != 1 {
+			fatalf("sam: CigarOpType.Consumes: guard body is not an assignment")
+		}
+		if id, ok := as.Lhs[0].(*ast.Ident); !ok || id.Name != rn {
+			fatalf("sam: CigarOpType.Consumes: guard assigns to something else than the receiver")
+		}
+		var idx []string
+		cond := t.expr(ifs.Cond, &idx)
+		val := t.expr(as.Rhs[0], &idx)
+		if len(idx) != 0 {
+			fatalf("sam: CigarOpType.Consumes: index expression in guard")
+		}
+		clamp = fmt.Sprintf("let v_%s := if %s then %s else v_%s in\n", rn, cond, val, rn)
+	default:
+		fatalf("sam: CigarOpType.Consumes: body no longer `[if c { ct = k }] return consume[ct]`")
+	}
+	fmt.Fprintf(w, "\n(* %s: func (%s CigarOpType) Consumes, as (Query, Reference) *)\n", p.fset.Position(fd.Pos()), rn)
+	fmt.Fprintf(w, "Definition sam_CigarOpType_Consumes (v_%s : Z) : outcome (Z * Z) :=\n%sif (0 <=? v_%s) && (v_%s <? zlen sam_consume) then Ok (nth (Z.to_nat v_%s) sam_consume (0, 0)) else Panic 1.\n", rn, clamp, rn, rn, rn)
 }
 
 // c16Method translates a value-receiver method whose body is straight-line
